@@ -367,6 +367,12 @@ where
             log::info!("Masked {masked} ambiguous bases (non-A/C/G/T/U/N/-) with 'N'");
         }
 
+        // Ambiguous bases were counted as missing for this filter only: if the
+        // array is kept (and may be saved), restore the counts of all observed bases
+        if filter_ambig_as_missing && update_kmers {
+            self.update_counts(false);
+        }
+
         removed
     }
 
